@@ -111,6 +111,8 @@ class Sim:
         # stall fault: (task name prefix, start step, length)
         self.stall_plan = cfg.get("stall")
         self.fault_counts = {}
+        self.clock_jumps = [tuple(j) for j in cfg.get("clock_jumps", [])]
+        self._jumps_seen = set()
         self.probes = {}
 
     # ------------------------------------------------------------------ logging
@@ -135,8 +137,26 @@ class Sim:
         h.update(repr(sorted(self.trace_out.items())).encode())
         return h.hexdigest()
 
+    def wall_offset(self):
+        """Sum of the planned wall-clock steps (cfg["clock_jumps"] = [[at_tick, delta_ticks], ...]) that have happened by now:
+        the "clock jump" fault (NTP step, suspend/resume, an operator setting the date).  Counted as fired when the code
+        under test reads either clock after the step."""
+        off = 0
+        for i, (at, delta) in enumerate(self.clock_jumps):
+            if at <= self.now:
+                off += delta
+                if i not in self._jumps_seen:
+                    self._jumps_seen.add(i)
+                    self.fault_fired("clock_jump_fwd" if delta > 0 else "clock_jump_back")
+        return off
+
     def time(self):
-        return EPOCH + self.now / TICKS
+        return EPOCH + (self.now + self.wall_offset()) / TICKS
+
+    def monotonic(self):
+        if self.clock_jumps:
+            self.wall_offset()
+        return self.now / TICKS
 
     def _draw_countdown(self):
         p = self.p_line
